@@ -269,8 +269,12 @@ fn poisoned_cache(rng: &mut Rng, n: u64, out: &mut Out) {
         // the forger's filters: the previous block's filter everywhere (so nothing of block n's own activity matches), and its hash chain
         // variant 3 (always the first world): a forged interior whose LAST entry is the genuine upper check point - all a single
         // peer has to get right, since nothing else of the list can be checked before the filters arrive
-        let variant = if world == 0 { 3 } else { rng.below(3) };
-        let upto = match variant { 0 | 3 => cn + interval, 1 => cn + interval + rng.range(1, 3), _ => cn + rng.range(2, interval - 1) }.min(tip);
+        // variant 4 (always the second world): the authentic hashes of the range ARE cached already; a conflicting list with the right
+        // parent and the genuine last hash must not replace them
+        let variant = if world == 0 { 3 } else if world == 1 { 4 } else { rng.below(3) };
+        let upto = match variant { 0 | 3 | 4 => cn + interval, 1 => cn + interval + rng.range(1, 3), _ => cn + rng.range(2, interval - 1) }.min(tip);
+        let prefilled = variant == 4 && upto == cn + interval;
+        if prefilled { net.peers.update_cached_block_filter_hashes(((cn + 1)..=(cn + interval)).map(|j| bc.fhashes[j as usize].clone()).collect()); }
         let mut parent = bc.fhashes[cn as usize].clone();
         let mut fake_filters: Vec<packed::Bytes> = Vec::new();
         let mut fake_hashes: Vec<packed::Byte32> = Vec::new();
@@ -282,7 +286,7 @@ fn poisoned_cache(rng: &mut Rng, n: u64, out: &mut Out) {
             fake_hashes.push(h.clone());
             parent = h;
         }
-        let tail = variant == 3 && upto == cn + interval;
+        let tail = (variant == 3 || variant == 4) && upto == cn + interval;
         if tail { let k = fake_hashes.len() - 1; fake_hashes[k] = bc.fhashes[(cn + interval) as usize].clone(); fake_filters.pop(); }
         let r1 = net.fp_recv(peer, hashes_message(cn + 1, &bc.fhashes[cn as usize], &fake_hashes));
         let (_, cached_after) = net.peers.get_cached_block_filter_hashes();
@@ -295,19 +299,23 @@ fn poisoned_cache(rng: &mut Rng, n: u64, out: &mut Out) {
         let mut problems: Vec<String> = Vec::new();
         if r1.panicked || r2.panicked { problems.push(format!("[C10-filter-panic] the handler panicked: {}", super::last_panic())); }
         if let Some(j) = cached_after.iter().enumerate().position(|(j, h)| bc.fhashes.get((cn + 1) as usize + j) != Some(h)) {
-            if tail {
+            if prefilled {
+                problems.push(format!("[C06-cached-hashes-rewritten] the authentic filter hashes cached for the range ({}, {}] were replaced by a conflicting list (forged hash for block {}) because its parent and its last hash are right", cn, cn + interval, cn + 1 + j as u64));
+            } else if tail {
                 problems.push(format!("[C06-cached-interior-hashes-unverified] the filter hashes of the range ({}, {}] were cached from ONE proven peer; only the last one can be compared with the finalized check point, the forged hash of block {} before it was accepted", cn, cn + interval, cn + 1 + j as u64));
             } else if upto >= cn + interval {
                 problems.push(format!("[C06-unanchored-cached-hashes] a cached filter hash (block {}) that is not the chain's was accepted although the batch reaches the next finalized check point (block {})", cn + 1 + j as u64, cn + interval));
             }
         }
-        if min_after > cn && tail {
+        if min_after > cn && prefilled {
+            problems.push(format!("[C06-cached-hashes-rewritten] filter progress moved from {} to {} over forged filters after the cached hashes had been replaced", cn, min_after));
+        } else if min_after > cn && tail {
             problems.push(format!("[C06-cached-interior-hashes-unverified] filter progress moved from {} to {} over {} forged filters that fit the forged interior hashes (the genuine filter of block {} would be rejected - or a peer sending it banned - only at the end of the range)", cn, min_after, count, cn + interval));
         } else if min_after > cn {
             problems.push(format!("[C06-unauthentic-filter-accepted] filter progress moved from {} to {} over filters of the peer's own making, checked against filter hashes only that peer had delivered", cn, min_after));
         }
         let oracle = if problems.is_empty() { Ok(()) } else { Err(problems.join(" || ")) };
-        out.case(&format!("poison-{}", world), &["poisoned-cached-hashes", if tail { "genuine-last-hash" } else { "forged-throughout" }], "(VN 1)", &Val::n(1), oracle,
+        out.case(&format!("poison-{}", world), &["poisoned-cached-hashes", if prefilled { "conflicts-with-cached" } else if tail { "genuine-last-hash" } else { "forged-throughout" }], "(VN 1)", &Val::n(1), oracle,
             &format!("world {}: chain {} blocks, finalized index {}, filter syncing at block {} (cached range ({}, {}]); the proven peer sends {} forged filter hashes from {} (bans {:?}), then {} forged filters (bans {:?}); cached afterwards: {} hashes, min filtered {}",
                 world, len, fin, cn, cn, cn + interval, fake_hashes.len(), cn + 1, r1.bans, count, r2.bans, cached_after.len(), min_after));
     }
